@@ -548,3 +548,61 @@ func TestRegression(t *testing.T) {
 		ev.Case(true, ev.Hash("badkey", st.String()), nil)
 	}
 }
+
+// ---- one attribute value shared by the loggers of a tree ----
+
+// TestSharedAttrAcrossLoggers: a program keeps one attribute value in a variable - a group with a deferred value inside
+// that differs every time it is resolved - and hands it to the loggers of a tree in turn: to With on one, at the call
+// site of its parent, to With on a sibling. What each of them writes is what a logger built alone from a fresh root
+// writes when it is given an attribute value of its own (of the same shape, at the same count): a derivation, or a
+// record, on one logger leaves the caller's value as it was for the next.
+func TestSharedAttrAcrossLoggers(t *testing.T) {
+	rt.Check(t, 600, 100000, func(t *rapid.T) {
+		st := setup{kind: rapid.IntRange(0, 2).Draw(t, "handler")}
+		ra := lm.GenReusedAttr().Draw(t, "attr")
+		sink := &lm.Sink{}
+		type node struct {
+			l     *logger.Logger
+			chain []lm.Step
+		}
+		nodes := []node{{l: st.fresh(sink)}}
+		for i, n := 0, rapid.IntRange(0, 3).Draw(t, "plainDerivations"); i < n; i++ {
+			p := nodes[rapid.IntRange(0, len(nodes)-1).Draw(t, "parent")]
+			step := lm.Step{Group: fmt.Sprintf("grp%d", i)}
+			if rapid.Bool().Draw(t, "with") {
+				step = lm.Step{With: []lm.Node{{Key: fmt.Sprintf("k%d", i), Kind: lm.KInt64, I: int64(i)}}}
+			}
+			nodes = append(nodes, node{l: lm.Derive(p.l, []lm.Step{step}), chain: append(append([]lm.Step{}, p.chain...), step)})
+		}
+		uses := rapid.IntRange(2, 6).Draw(t, "uses")
+		var hist []string
+		for i := 1; i <= uses; i++ {
+			nd := nodes[rapid.IntRange(0, len(nodes)-1).Draw(t, "node")]
+			how := rapid.IntRange(0, 2).Draw(t, "how")
+			hist = append(hist, fmt.Sprintf("use %d: %s on the logger derived by %s", i, []string{"Log(attr)", "With(attr).Info", "Error(attr)"}[how], lm.RenderChain(nd.chain)))
+			use := func(l *logger.Logger, a slog.Attr) {
+				switch how {
+				case 0:
+					l.Log(context.Background(), logger.LevelInfo, "m", a)
+				case 1:
+					l.With(a).Info("m")
+				default:
+					l.Error("m", a)
+				}
+			}
+			sink.Reset()
+			use(nd.l, ra.Attr)
+			alone := &lm.Sink{}
+			use(lm.Derive(st.fresh(alone), nd.chain), ra.Fresh(int64(i)))
+			if len(sink.Writes) != 1 || len(alone.Writes) != 1 {
+				t.Fatalf("%d and %d Write calls for one record", len(sink.Writes), len(alone.Writes))
+			}
+			got, want := lm.MaskTime(st.kind, sink.Writes[0]), lm.MaskTime(st.kind, alone.Writes[0])
+			if !bytes.Equal(got, want) {
+				t.Fatalf("%s: the loggers of one tree were handed the same attribute value (%s) in turn\n  %s\nthe last of them wrote\n  %s\na logger built alone from a fresh root, given a value of its own, writes\n  %s", st, ra.Desc, strings.Join(hist, "\n  "), short(got), short(want))
+			}
+		}
+		ev.Label("one_attribute_value_shared_by_the_loggers_of_a_tree:" + lm.HandlerNames[st.kind])
+		ev.Case(true, ev.Hash("shared", st.String(), ra.Desc, strings.Join(hist, ";")), func() string { return st.String() + ": " + strings.Join(hist, "; ") })
+	})
+}
